@@ -27,7 +27,7 @@ type Reply struct {
 	Hang      bool          // never answer; return ctx error once the context ends
 	Proto     string        // "" = HTTP/1.1
 	Chunked   bool          // unknown length: ContentLength -1, Transfer-Encoding chunked (as a real transport reports it)
-	Note      string // free text for samples
+	Note      string        // free text for samples
 }
 
 var ErrOrigin = errors.New("sim: scripted origin transport error")
@@ -35,21 +35,21 @@ var ErrBody = errors.New("sim: scripted body read failure")
 
 // UpCall is one call of the upstream RoundTripper as the origin saw it.
 type UpCall struct {
-	Exch       int
-	Index      int
-	Serial     string
-	Method     string
-	URL        string
-	Host       string
-	Header     http.Header
-	Enter      time.Time
-	Exit       time.Time
-	Background bool // entered on another goroutine than the one running Do
-	Reply      *Reply
-	CtxErr     string // context error seen at exit, if any
+	Exch        int
+	Index       int
+	Serial      string
+	Method      string
+	URL         string
+	Host        string
+	Header      http.Header
+	Enter       time.Time
+	Exit        time.Time
+	Background  bool // entered on another goroutine than the one running Do
+	Reply       *Reply
+	CtxErr      string // context error seen at exit, if any
 	HadDeadline bool
-	Deadline   time.Time
-	body       []byte // body bytes as sent (complete)
+	Deadline    time.Time
+	body        []byte // body bytes as sent (complete)
 }
 
 // Body returns the complete body the origin generated for this call.
@@ -69,7 +69,7 @@ type exchKey struct{}
 // Origin is the scripted upstream.
 type Origin struct {
 	Handler Handler
-	Jitter  func() // optional schedule perturbation (Mode R)
+	Jitter  func()            // optional schedule perturbation (Mode R)
 	Gate    func(what string) // Mode S: called when an upstream call arrives
 	mu      sync.Mutex
 	orphans []*UpCall // calls without an exchange in their context
